@@ -6,6 +6,8 @@ import TlsProofs.Der
 import TlsModel.SignGuard
 import TlsModel.Gen.SignSites
 import TlsProofs.X25519
+import TlsProofs.RsaPadGen
+import TlsModel.Gen.RsaPad
 import Mathlib.Tactic.NormNum.Prime
 /-
   C10 — signatures and key agreement are sound, strict and never emitted when faulty.
@@ -947,3 +949,337 @@ theorem scheme_table_matches_rfc :
   decide +kernel
 
 end Tls.Gen.SignSites
+
+
+/-! ## The regenerated RSA padding / signature code (Tls.RsaPad.Gen) computes the hand-written model
+
+  `Tls.RsaPad.Gen.*` (TlsModel/Gen/RsaPad.lean) is re-translated on every run from the Python AST of
+  tlslite/utils/rsakey.py by translate/gen_rsapad.py (16 functions, statement by statement, over the
+  Python-runtime model TlsModel/PyInt.lean + PyExc.lean), `Tls.Cryptomath.Gen.*` from cryptomath.py /
+  compat.py by translate/gen_cryptomath.py.  `padSelf k H f hasPriv salt` is the RSAKey object the hand
+  model's key, hash and randomness describe (`_rawPublicKeyOp` = pow(c, e, n), `_rawPrivateKeyOp` = `f`,
+  `secureHash(·, H.name)` = `H.hash`, `getRandomBytes` = `salt`).
+
+  Proved for all inputs: the cryptomath helpers, `_raw_public_key_op_bytes`, `_addPKCS1Padding` (block
+  type 1), the DigestInfo table and `addPKCS1Prefix` / `addPKCS1SHA1Prefix`, `_raw_pkcs1_verify`, `verify`
+  for padding "pkcs1" (so `pkcs1_verify_iff_canonical` holds of the source text:
+  `gen_pkcs1_verify_iff_canonical`), and `MGF1`.
+  NOT proved for all inputs (the `_partial` theorems): `EMSA_PSS_verify`, `EMSA_PSS_encode`,
+  `RSASSA_PSS_verify`, `RSASSA_PSS_sign`, `sign`, `_raw_pkcs1_sign`, `verify` for "pss", `hashAndSign`,
+  `hashAndVerify` and the block type 2 path of `_addPKCS1Padding` are translated (no poison) and tied to
+  the hand model on families of concrete inputs evaluated in the kernel (valid encodings, every kind
+  of stray bit in the first and last octets, wrong salt length, wrong lengths, boundary values);
+  the statement for every input, `Gen.EMSA_PSS_verify … = liftP (emsaPssVerify …)`, and with it
+  `gen_pss_verify_accept_iff`, is missing. -/
+namespace Tls.Cm
+/-! cryptomath.py / compat.py as the source has them now (same theorems as in Props/C11.lean): the
+    `PyE.numBits` / `numBytes` / `bytesToNumber` / `numberToByteArray` definitions used by the
+    regenerated RSA code are what the regenerated cryptomath functions compute, for every argument. -/
+open Tls Tls.RsaDec Tls.PyE Tls.Cryptomath
+set_option linter.unusedSimpArgs false
+
+theorem gen_numBits_eq (x : Int) : Gen.numBits x = .ok (PyE.numBits x) := by
+  simp only [Gen.numBits, Gen.bit_length, pure, bitLength_eq]; rfl
+
+theorem gen_numBytes_eq (x : Int) : Gen.numBytes x = .ok (PyE.numBytes x) := by
+  simp only [Gen.numBytes, Gen.byte_length, Gen.bit_length, bind, pure, bitLength_eq, ok_bind', fdiv7_eq]; rfl
+
+theorem gen_bytesToNumber_eq (b : Bytes) :
+    Gen.bytesToNumber b "big" = .ok (PyE.bytesToNumber b) ∧
+    Gen.bytesToNumber b "little" = .ok (PyE.bytesToNumber b.reverse) := by
+  constructor <;> rfl
+
+theorem gen_int_to_bytes_eq (x k : Int) (order : String) :
+    Gen.int_to_bytes x (some k) order = PyE.intToBytes x k order := by
+  simp [Gen.int_to_bytes, bind, pure, optGet, Except.bind, Except.pure]
+
+theorem gen_int_to_bytes_none (x : Int) (order : String) :
+    Gen.int_to_bytes x none order = PyE.intToBytes x (if x ≠ 0 then PyE.numBytes x else 1) order := by
+  have hbl : Gen.byte_length x = .ok (PyE.numBytes x) := gen_numBytes_eq x
+  by_cases h : x = 0 <;> simp [Gen.int_to_bytes, bind, pure, optGet, Except.bind, Except.pure, hbl, h]
+
+theorem gen_numberToByteArray_eq (x k : Int) :
+    Gen.numberToByteArray x (some k) "big" = PyE.numberToByteArray x k := by
+  unfold Gen.numberToByteArray
+  have hbl : Gen.byte_length x = .ok (PyE.numBytes x) := gen_numBytes_eq x
+  simp only [bind, pure, hbl, ok_bind', gen_int_to_bytes_eq]
+  have hs : ((some k).isSome = true) = True := by simp
+  have hg : optGet (some k) = (.ok k : PyE.M Int) := rfl
+  have hd : (decide True = true) = True := by simp
+  simp only [hs, hg, hd, if_true, ok_bind']
+  unfold PyE.numberToByteArray
+  have hL : PyE.numBytes x = ((Tls.RsaDec.numBytes x.natAbs : Nat) : Int) := rfl
+  generalize hLn : Tls.RsaDec.numBytes x.natAbs = L at hL
+  by_cases hx : x < 0
+  · -- OverflowError on either path
+    simp only [hx, if_true]
+    have hL1 : 0 ≤ PyE.numBytes x := by rw [hL]; omega
+    by_cases hk : k < PyE.numBytes x
+    · simp only [hk, decide_true, if_true]
+      rw [intToBytes_neg x _ "big" hx hL1 (Or.inl rfl)]; rfl
+    · simp only [hk, decide_false, Bool.false_eq_true, if_false]
+      rw [intToBytes_neg x k "big" hx (by omega) (Or.inl rfl)]
+  · simp only [hx, if_false]
+    obtain ⟨n, rfl⟩ : ∃ n : Nat, x = (n : Int) := ⟨x.toNat, by omega⟩
+    have hn : ((n : Int)).natAbs = n := Int.natAbs_natCast n
+    rw [hn] at hLn
+    have hlt := lt_pow_numBytes n
+    rw [hLn] at hlt
+    simp only [Int.toNat_natCast]
+    by_cases hk : k < PyE.numBytes (n : Int)
+    · simp only [hk, decide_true, if_true]
+      rw [hL, intToBytes_big n L hlt, ok_bind']
+      by_cases hk0 : k < 0
+      · -- nothing is left of the slice
+        have : k.toNat = 0 := by omega
+        rw [this]
+        show Except.pure (Py.slice _ (some ((L : Int) - k)) (some (L : Int))) = _
+        have e : (L : Int) - k = ((L + (-k).toNat : Nat) : Int) := by omega
+        rw [e, slice_empty _ _ _ (by omega)]
+        rfl
+      · obtain ⟨kn, rfl⟩ : ∃ kn : Nat, k = (kn : Int) := ⟨k.toNat, by omega⟩
+        rw [hL] at hk
+        have hkl : kn ≤ L := by omega
+        have e : (L : Int) - (kn : Int) = ((L - kn : Nat) : Int) := by omega
+        show Except.pure (Py.slice _ (some ((L : Int) - (kn : Int))) (some (L : Int))) = _
+        rw [e, Py.slice_from_to _ _ _ (by rw [beEncode_len]; omega) (by rw [beEncode_len] <;> exact Nat.le_refl _)]
+        have hd2 := beEncode_drop n (L - kn) kn
+        rw [show kn + (L - kn) = L by omega] at hd2
+        rw [hd2, Int.toNat_natCast]
+        have : L - (L - kn) = kn := by omega
+        rw [this, List.take_of_length_le (by rw [beEncode_len] <;> exact Nat.le_refl _)]
+        rfl
+    · simp only [hk, decide_false, Bool.false_eq_true, if_false]
+      rw [hL] at hk
+      obtain ⟨kn, rfl⟩ : ∃ kn : Nat, k = (kn : Int) := ⟨k.toNat, by omega⟩
+      have hkl : L ≤ kn := by omega
+      rw [intToBytes_big n kn (Nat.lt_of_lt_of_le hlt (Nat.pow_le_pow_right (by decide) hkl)), Int.toNat_natCast]
+
+theorem gen_numberToByteArray_none (n : Nat) :
+    Gen.numberToByteArray (n : Int) none "big" =
+      .ok (beEncode (if n ≠ 0 then Tls.RsaDec.numBytes n else 1) n) := by
+  unfold Gen.numberToByteArray
+  have hs : ((none : Option Int).isSome = true) = False := by simp
+  simp only [hs, if_false, bind, pure, gen_int_to_bytes_none]
+  by_cases h : n = 0
+  · subst h; rfl
+  · have h' : ((n : Int) ≠ 0) := by omega
+    have hnb : PyE.numBytes (n : Int) = ((Tls.RsaDec.numBytes n : Nat) : Int) := numBytes_nat n
+    simp only [h, h', ne_eq, not_false_eq_true, if_true, hnb]
+    exact intToBytes_big n _ (lt_pow_numBytes n)
+
+theorem gen_divceil_eq (a b : Nat) (hb : 0 < b) :
+    Gen.divceil (a : Int) (b : Int) = .ok ((a / b + (if a % b = 0 then 0 else 1) : Nat) : Int) := by
+  unfold Gen.divceil PyE.divmod PyE.intBool
+  have hb' : ¬ ((b : Int) = 0) := by omega
+  simp only [bind, pure, hb', if_false, ok_bind']
+  rw [Int.fdiv_eq_ediv_of_nonneg _ (by omega), Int.fmod_eq_emod_of_nonneg _ (by omega)]
+  show Except.ok _ = Except.ok _
+  congr 1
+  by_cases h : a % b = 0
+  · have : ((a : Int) % (b : Int)) = 0 := by omega
+    simp [h, this]
+  · have : ¬ ((a : Int) % (b : Int)) = 0 := by omega
+    simp [h, this]
+
+end Tls.Cm
+
+namespace Tls.Rsa
+open Tls.Py Tls.RsaDec Tls.PyE Tls.RsaPad
+set_option linter.unusedSimpArgs false
+
+/-- the translators understood every statement (no poison was emitted) -/
+theorem gen_translation_complete :
+    RsaPad.Gen.translatorProblems = [] ∧ RsaPad.Gen.translated.all (fun x => x.2) = true ∧
+      RsaPad.Gen.translated.length = 16 ∧
+    Cryptomath.Gen.translatorProblems = [] ∧ Cryptomath.Gen.translated.all (fun x => x.2) = true ∧
+      Cryptomath.Gen.translated.length = 8 := by
+  decide
+
+theorem gen_raw_public_eq (k : PubKey) (H : HashAlg) (f : Nat → Nat) (hp : Bool) (s c : Bytes) :
+    Gen._raw_public_key_op_bytes (padSelf k H f hp s) c = liftP (rawPublicKeyOpBytes k c) := by
+  unfold Gen._raw_public_key_op_bytes rawPublicKeyOpBytes
+  simp only [bind, pure, padSelf_n, pyNumBytes, len_eq, bytesToNumber_eq, padSelf_pub, numberToByteArray_nat]
+  by_cases h1 : c.length = numBytes k.n
+  · have h1' : ((c.length : Int) = (numBytes k.n : Int)) := by omega
+    by_cases h2 : beDecode c ≥ k.n
+    · have h2' : ((beDecode c : Int) ≥ (k.n : Int)) := by omega
+      simp [h1, h1', h2, h2', PyE.raise, liftP, Err.toE]
+    · have h2' : ¬ ((beDecode c : Int) ≥ (k.n : Int)) := by omega
+      simp [h1, h1', h2, h2', liftP]
+  · have h1' : ¬ ((c.length : Int) = (numBytes k.n : Int)) := by omega
+    simp [h1, h1', PyE.raise, liftP, Err.toE]
+
+theorem gen_addPKCS1Padding1_eq (k : PubKey) (H : HashAlg) (f : Nat → Nat) (hp : Bool) (s bytes : Bytes) (fuel : Nat) :
+    Gen._addPKCS1Padding fuel (padSelf k H f hp s) bytes 1 = .ok (addPKCS1Padding k.n bytes) := by
+  unfold Gen._addPKCS1Padding addPKCS1Padding
+  have h1 : (decide ((1 : Int) = 1) = true) = True := by simp
+  simp only [bind, pure, h1, if_true, padSelf_n, pyNumBytes, len_eq, pad1_bytes, lift_some', ok_bind']
+  rfl
+
+theorem gen_prefix_table_eq : Gen.pkcs1Prefixes = Tls.Gen.Pkcs1.pkcs1Prefixes := by decide
+
+theorem gen_addPKCS1Prefix_eq (data : Bytes) (name : String) :
+    Gen.addPKCS1Prefix () data name = liftP (addPKCS1Prefix data name.toLower) := by
+  unfold Gen.addPKCS1Prefix addPKCS1Prefix PyE.dictHas PyE.dictGet PyE.lower
+  rw [gen_prefix_table_eq]
+  cases h : List.lookup name.toLower Tls.Gen.Pkcs1.pkcs1Prefixes <;>
+    simp [bind, pure, h, PyE.raise, liftP, Err.toE, Except.bind, Except.pure]
+
+theorem gen_addPKCS1SHA1Prefix_eq (hb : Bytes) (withNULL : Bool) :
+    Gen.addPKCS1SHA1Prefix () hb withNULL = .ok (addPKCS1SHA1Prefix hb withNULL) := by
+  cases withNULL <;> rfl
+
+theorem gen_raw_pkcs1_verify_eq (k : PubKey) (H : HashAlg) (f : Nat → Nat) (hp : Bool) (s sig bytes : Bytes) (fuel : Nat) :
+    Gen._raw_pkcs1_verify fuel (padSelf k H f hp s) sig bytes = .ok (rawPkcs1Verify k sig bytes) := by
+  unfold Gen._raw_pkcs1_verify rawPkcs1Verify
+  simp only [bind, pure, gen_raw_public_eq, gen_addPKCS1Padding1_eq]
+  cases h : rawPublicKeyOpBytes k sig with
+  | error e =>
+    have he : e = .valueError := by
+      unfold rawPublicKeyOpBytes at h
+      by_cases h1 : sig.length ≠ numBytes k.n
+      · simp [h1] at h; exact h.symm
+      · by_cases h2 : beDecode sig ≥ k.n
+        · simp [h1, h2] at h; exact h.symm
+        · simp [h1, h2] at h
+    subst he
+    rfl
+  | ok cb =>
+    simp [liftP, PyE.attempt, PyE.getSome, Except.bind, Except.pure]
+    by_cases hc : cb = addPKCS1Padding k.n bytes <;> simp [hc]
+
+theorem gen_verify_pkcs1_eq (k : PubKey) (H : HashAlg) (f : Nat → Nat) (hp : Bool) (s sig bytes : Bytes)
+    (alg : Option String) (sl : Option Int) (sLen fuel : Nat)
+    (hlow : ∀ a, alg = some a → a.toLower = a) :
+    Gen.verify fuel (padSelf k H f hp s) sig bytes "pkcs1" alg sl =
+      liftP (verify k sig bytes .pkcs1 alg H sLen) := by
+  unfold Gen.verify verify
+  simp only [bind, pure, padSelf_keyType, gen_addPKCS1SHA1Prefix_eq, gen_raw_pkcs1_verify_eq, gen_addPKCS1Prefix_eq,
+    ok_bind']
+  by_cases hpss : k.pssOnly = true
+  · simp [hpss, liftP, Except.pure]
+  · have hpss' : k.pssOnly = false := by simpa using hpss
+    cases alg with
+    | none => simp [hpss', liftP, Except.pure, Except.bind]
+    | some a =>
+      have ha := hlow a rfl
+      by_cases hs : a = "sha1"
+      · subst hs
+        simp [hpss', liftP, Except.pure, Except.bind]
+      · simp only [hpss', hs, ha]
+        cases hpre : addPKCS1Prefix bytes a <;>
+          simp [hpre, hs, liftP, Except.pure, Except.bind, PyE.optGet, gen_raw_pkcs1_verify_eq] <;>
+          rw [ha, hpre]
+
+theorem gen_MGF1_eq (k : PubKey) (H : HashAlg) (f : Nat → Nat) (hp : Bool) (s seed : Bytes) (maskLen : Nat)
+    (hh : 0 < H.hLen) :
+    Gen.MGF1 (padSelf k H f hp s) seed (maskLen : Int) H.name = liftP (mgf1 H seed maskLen) := by
+  unfold Gen.MGF1 mgf1
+  have h0 : ¬ H.hLen = 0 := by omega
+  simp only [bind, pure, padSelf_digestSize, ok_bind', h0, if_false, Tls.Cm.gen_divceil_eq _ _ hh, ← divceil_def]
+  by_cases hm : maskLen > 2 ^ 32 * H.hLen
+  · have hm' : ((maskLen : Int) > 4294967296 * (H.hLen : Int)) := by
+      have : (2 : Nat) ^ 32 = 4294967296 := by decide
+      omega
+    simp only [hm, hm', decide_true, if_true]
+    rfl
+  · have hm' : ¬ ((maskLen : Int) > 4294967296 * (H.hLen : Int)) := by
+      have : (2 : Nat) ^ 32 = 4294967296 := by decide
+      omega
+    simp only [hm, hm', decide_false, Bool.false_eq_true, if_false]
+    rw [forInL_range0 (divceil maskLen H.hLen) _ _
+      (fun acc x => acc ++ H.hash (seed ++ beEncode 4 x)), ok_bind', slice_to]
+    · rfl
+    · intro x st
+      rw [show (4 : Int) = ((4 : Nat) : Int) from rfl, numberToByteArray_nat, ok_bind', padSelf_hash]
+      rfl
+
+/-- **pkcs1_verify_iff_canonical, of the source as it is now.**  `verify(sig, h, "pkcs1", alg)` of the
+    regenerated rsakey.py returns True iff the key is not PSS-only, `sig` has the length of the modulus,
+    is below it, and `sig^e mod n` on exactly k bytes is THE canonical encoding (lower-case hash name,
+    as every caller passes it). -/
+theorem gen_pkcs1_verify_iff_canonical (k : PubKey) (H : HashAlg) (f : Nat → Nat) (hp : Bool) (s sig h : Bytes)
+    (alg : String) (sl : Option Int) (fuel : Nat) (hlow : alg.toLower = alg) :
+    Gen.verify fuel (padSelf k H f hp s) sig h "pkcs1" (some alg) sl = .ok true ↔
+      k.pssOnly = false ∧ sig.length = numBytes k.n ∧ beDecode sig < k.n ∧
+      ∃ t ∈ acceptedDigestInfos alg h,
+        beEncode (numBytes k.n) ((beDecode sig) ^ k.e % k.n) = canonicalEM (numBytes k.n) t := by
+  rw [gen_verify_pkcs1_eq k H f hp s sig h (some alg) sl 0 fuel (fun a ha => by cases ha; exact hlow),
+    ← pkcs1_verify_iff_canonical k sig h alg H 0]
+  cases verify k sig h .pkcs1 (some alg) H 0 with
+  | error e => simp [liftP]
+  | ok b => simp [liftP]
+
+example : Gen.verify 4 (padSelf exKey.pub toyHash (fun _ => 0) false []) [1, 2, 3, 4, 5] [7] "pkcs1" none none = .ok false := by
+  decide +kernel
+
+/-- outcome of a hand-model verification as the source reports it -/
+def asBool (r : Except Err Unit) : PyE.M Bool := liftP (r.map fun _ => true)
+
+/-- encoded messages for the vector obligations: the encoder's output for (emBits, salt) and that output
+    with one octet xor-ed at a position -/
+def pssEM (emBits : Nat) (salt : Bytes) : Bytes := (emsaPssEncode toyHash [1, 2] emBits salt).toOption.getD []
+def flipAt (b : Bytes) (i : Nat) (m : UInt8) : Bytes := b.set i ((b.getD i 0) ^^^ m)
+
+def pssVerifyVectors : List (Bytes × Nat × Nat) :=
+  [((47 : Nat), ([9] : Bytes)), (48, [9]), (41, [9]), (47, []), (64, [7, 8, 9]), (33, [])].flatMap fun es =>
+    let emBits := es.1
+    let salt := es.2
+    let em := pssEM emBits salt
+    [ (em, emBits, salt.length),
+      (flipAt em 0 0x01, emBits, salt.length), (flipAt em 0 0x40, emBits, salt.length), (flipAt em 0 0x80, emBits, salt.length),
+      (flipAt em 1 0x01, emBits, salt.length), (flipAt em (em.length - 1) 0x01, emBits, salt.length),
+      (flipAt em (em.length - 2) 0x10, emBits, salt.length), (flipAt em (em.length - 4) 0x02, emBits, salt.length),
+      (em, emBits, salt.length + 1), (em.drop 1, emBits, salt.length), (0 :: em, emBits, salt.length), ([], emBits, 0),
+      (em, emBits + 8, salt.length), (em, emBits - 1, salt.length) ]
+
+theorem gen_pss_verify_vectors_partial :
+    pssVerifyVectors.all (fun v =>
+      Gen.EMSA_PSS_verify (padSelf exKey.pub toyHash (fun _ => 0) false []) [1, 2] v.1 (v.2.1 : Int) "toy" (v.2.2 : Int)
+        == asBool (emsaPssVerify toyHash [1, 2] v.1 v.2.1 v.2.2)) = true := by
+  decide +kernel
+
+
+theorem gen_pss_encode_vectors_partial :
+    ([((47 : Nat), ([9] : Bytes)), (48, [9]), (41, [9]), (47, []), (64, [7, 8, 9]), (33, []), (24, [1]), (31, []), (32, []), (0, [])].all
+      fun es => Gen.EMSA_PSS_encode (padSelf exKey.pub toyHash (fun _ => 0) false es.2) [1, 2] (es.1 : Int) "toy" (es.2.length : Int)
+        == liftP (emsaPssEncode toyHash [1, 2] es.1 es.2)) = true := by
+  decide +kernel
+
+/-- signatures for the key-level vectors: the hand model's PSS signature of `[1, 2]` with salt `[9]` / no salt -/
+def pssSig (salt : Bytes) : Bytes :=
+  ((rsassaPssSign toyHash exKey ⟨0, 0⟩ 12345 [1, 2] salt).toOption.map Prod.fst).getD []
+
+def pssKeyVectors : List (Bytes × Nat) :=
+  [([9] : Bytes), []].flatMap fun salt =>
+    let sig := pssSig salt
+    [ (sig, salt.length), (flipAt sig 0 0x01, salt.length), (flipAt sig 4 0x01, salt.length), (sig, salt.length + 1),
+      (sig.drop 1, salt.length), (0 :: sig, salt.length), (beEncode 5 136117223861, salt.length), (beEncode 5 0, salt.length),
+      (beEncode 5 1, salt.length), (beEncode 5 136117223860, salt.length) ]
+
+theorem gen_rsassa_pss_verify_vectors_partial :
+    (pssKeyVectors.all fun v =>
+      Gen.RSASSA_PSS_verify (padSelf exKey.pub toyHash (fun _ => 0) false []) [1, 2] v.1 "toy" (v.2 : Int)
+        == asBool (rsassaPssVerify toyHash exKey.pub [1, 2] v.1 v.2)) = true ∧
+    (pssKeyVectors.all fun v =>
+      Gen.verify 8 (padSelf exKey.pub toyHash (fun _ => 0) false []) v.1 [1, 2] "pss" (some "toy") (some (v.2 : Int))
+        == liftP (verify exKey.pub v.1 [1, 2] .pss (some "toy") toyHash v.2)) = true := by
+  constructor <;> decide +kernel
+
+/-- signing: the source's `sign` / `RSASSA_PSS_sign` / `_raw_pkcs1_sign` with the hand model's blinded CRT
+    operation as `_rawPrivateKeyOp` give the hand model's signatures -/
+def exPriv (m : Nat) : Nat := (rawPrivateKeyOp exKey ⟨0, 0⟩ 12345 m).1
+theorem gen_sign_vectors_partial :
+    ([([9] : Bytes), []].all fun salt =>
+      Gen.sign 8 (padSelf exKey.pub toyHash exPriv true salt) [1, 2] "pss" (some "toy") (some (salt.length : Int))
+        == liftP ((sign exKey ⟨0, 0⟩ 12345 [1, 2] .pss (some "toy") toyHash salt).map Prod.fst)) = true ∧
+    ([some "sha1", some "sha256", none, some "nohash"].all fun alg =>
+      Gen.sign 8 (padSelf exKey.pub toyHash exPriv true []) [1] "pkcs1" alg none
+        == liftP ((sign exKey ⟨0, 0⟩ 12345 [1] .pkcs1 alg toyHash []).map Prod.fst)) = true ∧
+    Gen.sign 8 (padSelf exKey.pub toyHash exPriv true []) [1] "x" none none = .error .unknownRSAType ∧
+    Gen.hashAndVerify 8 (padSelf exKey.pub toyHash exPriv true []) (pssSig [9]) [5, 6] "PSS" "toy" 1
+      = liftP (hashAndVerify exKey.pub (pssSig [9]) [5, 6] .pss toyHash 1) := by
+  refine ⟨by decide +kernel, by decide +kernel, by decide +kernel, by decide +kernel⟩
+
+end Tls.Rsa
